@@ -143,6 +143,20 @@ func (f Descent) locate(pp Expr, data any, rest Expr, max int) (locs []Expr) {
 					locs = append(locs, f.locate(cp, rv.Interface(), rest, mx)...)
 				}
 			}
+		case reflect.Map:
+			for _, k := range sortedMapKeys(rd) {
+				rv := rd.MapIndex(k)
+				if rv.CanInterface() {
+					cp[len(pp)] = Child(k.String())
+					if 0 < max {
+						mx = max - len(locs)
+						if mx <= 0 {
+							break
+						}
+					}
+					locs = append(locs, f.locate(cp, rv.Interface(), rest, mx)...)
+				}
+			}
 		}
 	}
 	return
